@@ -692,6 +692,26 @@ pub fn convmain() {
                 }
                 rec.ev(e);
             }
+            "fan" => {
+                // one colour converted (unclamped) to EVERY other node of the universe; only what matters for finiteness
+                // is recorded: {"op":"fan","from":"okhsl","in":[..]} -> targets with a non-finite result / a panic
+                let from = idx(c["from"].as_str().unwrap());
+                let mut v: V = [0.0; 4];
+                for (k, s) in c["in"].as_array().unwrap().iter().enumerate() { v[k] = hexf(s.as_str().unwrap()); }
+                let (mut bad, mut panics, mut n) = (vec![], vec![], 0u32);
+                for to in 0..nodes.len() {
+                    if to == from { continue; }
+                    if let Some(f) = table[from][to] {
+                        n += 1;
+                        match catch(|| f(&v, b'u')) {
+                            Ok(o) => { if !fin(&o.v, nodes[to].n, false) { bad.push(nodes[to].name); } }
+                            Err(_) => panics.push(nodes[to].name),
+                        }
+                    }
+                }
+                rec.ev(json!({"ev": "fan", "id": c["id"], "t": TNAME, "from": nodes[from].name, "in": enc(&v, nodes[from].n, false),
+                              "n": n, "bad": bad, "panics": panics}));
+            }
             "sweep" => {
                 // one cylinder colour swept over its saturation-like component (index 1), converted along `path`;
                 // the last node's value is recorded per step: {"op":"sweep","from":"okhsl","in":[h,_,l],"s":[..],"path":["oklab","oklch"]}
